@@ -134,7 +134,7 @@ PROPS = {
         "rules": [shape.rule_shape, shrinking.rule_chirality, shrinking.rule_samesrc, shrinking.rule_declsrc, shrinking.rule_idcmp, shrinking.rule_cutvar, shrinking.rule_cutkind, enums.rule_enum_maps({"core2axcut"}),
                   fresh.rule_fresh, fresh.rule_maxid, fresh.rule_counter, traversal.rule_trav(["core2axcut::shrinking::Shrinking", "scc_core_lang::traits::substitution::SubstVar",
                                                                           "scc_core_lang::traits::typed_free_vars::TypedFreeVars"]),
-                  inputs.rule_useall_for(["core2axcut"], 35), traversal.rule_siblings],
+                  inputs.rule_useall_for(["core2axcut"], 35), traversal.rule_siblings, sharing.rule_sharepath],
         "text": "Structural necessary conditions of shrinking: all 18 well-typed (producer, consumer) cut shapes are handled before the "
                 "wildcard (R-SHAPE); the chirality collapse folds to the documented 6-row table (R-CHI, abstract interpretation of "
                 "shrink_binding); lifted definitions get exactly the free variables, in one order, on both sides (R-SAMESRC); generated "
@@ -143,7 +143,7 @@ PROPS = {
         "assumptions": ["that each arm's right-hand side is the right AxCut statement (e.g. producer-first vs consumer-first) is not decided"],
     },
     "C19": {
-        "rules": [sharing.rule_share, sharing.rule_once, sharing.rule_liftstore],
+        "rules": [sharing.rule_share, sharing.rule_once, sharing.rule_liftstore, sharing.rule_sharepath],
         "text": "Sharing discipline decided by symbolic execution of the translation functions' MIR over lazily refined shapes (finite "
                 "variant sets, no solver): a consumer or statement that reaches two or more consuming uses is the result of "
                 "share()/lift(), or is pinned to a size-bounded shape, or is iterated at most once. All fun2core functions with a "
@@ -154,7 +154,7 @@ PROPS = {
         "assumptions": ["the degree of the polynomial is not decided; growth from other sources than duplicated continuations was not found by reading"],
     },
     "C02": {
-        "rules": [hygiene.rule_hyg, hygiene.rule_seed, hygiene.rule_binders, hygiene.rule_fvscope, hygiene.rule_seq, inputs.rule_useall_for(["fun2core"], 50), enums.rule_enum_maps({"fun2core"}), enums.rule_enum_surface, translate.rule_xlate,
+        "rules": [hygiene.rule_hyg, hygiene.rule_seed, hygiene.rule_binders, hygiene.rule_fvscope, hygiene.rule_seq, sharing.rule_sharepath, inputs.rule_useall_for(["fun2core"], 50), enums.rule_enum_maps({"fun2core"}), enums.rule_enum_surface, translate.rule_xlate,
                   traversal.rule_trav(["fun::traits::used_binders::UsedBinders", "fun2core::compile::Compile"])],
         "text": "Hygiene and naming clauses of the Fun->Core translation, decided for every program at once: (R-HYG) the incoming "
                 "consumer is never placed under a binder copied verbatim from the source; (R-SEED) fresh names are seeded from the "
@@ -188,7 +188,7 @@ PROPS = {
     "C12": {
         "rules": [panics.rule_panic(("B",)), annot.rule_annot_check, annot.rule_annot_freevars, shape.rule_shape,
                   traversal.rule_trav(["fun::typing::check::Check"]), wiring.rule_wire_intra, hygiene.rule_fvscope, shrinking.rule_cutvar, traversal.rule_siblings, formatting.rule_nameprint, typing_rules.rule_tywf,
-                  linear.rule_linear_subst, linear.rule_linear_ctx],
+                  linear.rule_linear_subst, linear.rule_linear_ctx, panics.rule_idxguard],
         "text": "'No internal failure' clause: every panic-capable site reachable from the post-check stage entry points is audited, "
                 "and the annotation/shape classes are discharged by checked rules rather than trusted: Check sets every annotation on "
                 "every Ok path and visits every subterm (R-ANNOT, R-TRAV), free-variable and closure-environment annotations are set "
@@ -206,14 +206,14 @@ PROPS = {
         "assumptions": ["behavioural equivalence itself is the conjunction of C02-C06, C13, C14, C20 and of semantic facts not decided statically"],
     },
     "C18": {
-        "rules": [panics.rule_panic(("A", "B")), panics.rule_gact, termination.rule_descent, termination.rule_loops, panics.rule_span, hygiene.rule_fvscope, typing_rules.rule_tywf, typing_rules.rule_tyrule],
+        "rules": [panics.rule_panic(("A", "B")), panics.rule_gact, termination.rule_descent, termination.rule_loops, panics.rule_span, panics.rule_idxguard, hygiene.rule_fvscope, typing_rules.rule_tywf, typing_rules.rule_tyrule],
         "text": "Panic-site closure: every panic-capable construct reachable in the resolved whole-workspace call graph from the "
                 "parser, the type checker and every later stage entry point is enumerated and must be an audited row; zone A "
                 "(everything reachable from parse_module/parse_term/Program::check, including all 399 grammar actions) accepts "
                 "only locally discharged rows. Decides 'never panics on user input' for all inputs at once. Termination: R-DESCENT decides that "
                 "every recursion cycle of the pipeline's call graph is a structural descent (each recursive call receives a part of its "
                 "caller's input, or an audited renaming of one), so the recursion depth is bounded by the program; R-LOOP decides that every loop is left through the exhaustion of a finite "
-                "iterator or popped collection (three audited searches excepted). R-SPAN: diagnostic source spans are empty or given by token boundaries, never a constant number of bytes (miette panics when a label ends inside a multi-byte character). Two invariants whose loss ends in a panic of a later stage are checked where they are established: free variables of unfocused Core are collected per binder scope (R-FVSCOPE; otherwise a lifted definition lacks a parameter and code generation fails with `Variable not found`), and a supplied type is checked for well-formedness before a term is checked against it (R-TYWF; otherwise shrinking fails with `Type not found`); and a match is accepted only with exactly one clause per xtor of its type (R-TYRULE over every clause list of up to three clauses; otherwise the reduction of a known cut fails with `Xtor not found in clauses`).",
+                "iterator or popped collection (three audited searches excepted). R-SPAN: diagnostic source spans are empty or given by token boundaries, never a constant number of bytes (miette panics when a label ends inside a multi-byte character). R-IDXGUARD: a length test in front of a constant index lets only lengths through for which the index is in range. Two invariants whose loss ends in a panic of a later stage are checked where they are established: free variables of unfocused Core are collected per binder scope (R-FVSCOPE; otherwise a lifted definition lacks a parameter and code generation fails with `Variable not found`), and a supplied type is checked for well-formedness before a term is checked against it (R-TYWF; otherwise shrinking fails with `Type not found`); and a match is accepted only with exactly one clause per xtor of its type (R-TYRULE over every clause list of up to three clauses; otherwise the reduction of a known cut fails with `Xtor not found in clauses`).",
         "assumptions": ["lalrpop's generated state machine and third-party crates do not panic",
                         "LOOKUP rows: checked programs are well-scoped (name lookups succeed)",
                         "stack overflow and allocation failure are outside the property ('within stack limits')"],
